@@ -203,3 +203,17 @@ PROPS["C15"] = dict(
         R("C15.isolation", "swarms", "TestC15Isolation", 300, 15000, quick=dict(checks=300, shards=2, timeout=600)),
     ],
 )
+
+PROPS["C10"] = dict(
+    level="fault_enumeration",
+    technique="property-based testing (rapid) over fragment schedules (permutation, loss, duplication, 4-way concurrent feeding) with the harness as the inner transport of real fragmenting layers; per-source ledger oracle",
+    level_text="Real sender instances produce the fragments; the harness owns the receiver's inner transport and feeds a generated schedule (any interleaving of several messages from several sources, per-fragment loss and duplication, sequential or concurrent); every delivery is checked against the per-source ledger and against the loss set. Holds on everything generated.",
+    level_note="Quantifies over network faults on honest senders; a sender that restarts and reuses message ids within the reassembly window is outside the domain (DESIGN.md 6).",
+    design_ref="4/C10",
+    assumptions=["senders are honest and do not reuse message ids within the reassembly window"],
+    subs=[
+        R("C10.fragswarm", "swarms", "TestC10Frag", 500, 30000),
+        R("C10.mbapp", "swarms", "TestC10Mbapp", 400, 25000, quick=dict(checks=400, shards=2, timeout=600)),
+        R("C10.mbapp_reply_vs_tell", "swarms", "TestC10MbappBidi", 120, 6000, quick=dict(checks=120, shards=2, timeout=600)),
+    ],
+)
